@@ -95,13 +95,17 @@ SYMS = {
     'unpivot_regex': S('unpivot', [{'name': '(s|zn)', 'keys': {'what': r'\1'}}],
                        [{'name': 'what', 'type': 'string'}], {'name': 'txt', 'type': 'string'}, resources='res_1'),
     'concat_same_name': S('concatenate', {'i': [], 'm': []}, {'name': 'cc'}),
-    'concat_mapped': S('concatenate', {'i': [], 'num': ['n', 'n2']}, {'name': 'cm'}),
+    'concat_mapped': S('concatenate', {'i': [], 'num': ['n2', 'k']}, {'name': 'cm'}, resources='res_2'),
     'join_int': S('join', 'res_1', ['i'], 'res_2', ['i'], join_fields('m'), source_delete=False),
     'join_num': S('join', 'res_1', ['i'], 'res_2', ['i'], join_fields('n'), source_delete=True),
-    'join_str': S('join', 'res_1', ['i'], 'res_2', ['i'], join_fields('s'), mode='inner'),
+    'join_str': S('join', 'res_1', ['i'], 'res_2', ['i'],
+                  {'s_%s' % a: {'name': 's', 'aggregate': a} for a in AGGS if a not in ('avg', 'median')}, mode='inner'),
     'join_full': S('join', 'res_1', ['i'], 'res_2', ['i'], {'m_sum': {'name': 'm', 'aggregate': 'sum'},
                                                                's': {'aggregate': 'first'}}, mode='full-outer'),
-    'join_star': S('join', 'res_1', ['i'], 'res_2', ['i'], {'*': {'aggregate': 'last'}}, source_delete=False),
+    'join_typed': S('join', 'res_1', ['i'], 'res_2', ['i'], {'dt': {'aggregate': 'first'}, 'dtm': {'aggregate': 'max'},
+                                                               'b': {'aggregate': 'last'}, 'arr': {'aggregate': 'array'},
+                                                               'obj': {'aggregate': 'any'}, 'd': {'aggregate': 'sum'},
+                                                               'mixes': {'name': 'mix', 'aggregate': 'set'}}, source_delete=False),
     'join_self': S('join_with_self', 'res_2', ['i'], {'i': None, 'm_avg': {'name': 'm', 'aggregate': 'avg'},
                                                         'k_max': {'name': 'k', 'aggregate': 'max'},
                                                         'cnt': {'aggregate': 'count'}}),
